@@ -249,6 +249,220 @@ EmitTextOK(st, t, dec) ==
   st.tbl[t].ncols = 0 \/ TextBad(st, t, dec, [lines |-> [l |-> EmitText(st, t, dec), rest |-> ""]]) = {}
 
 -----------------------------------------------------------------------------
+(* Common view of a table for the record-oriented renderers *)
+
+CellTexts(cells) == [i \in DOMAIN cells |-> cells[i].txt]
+PadTo(xs, n) == xs \o [i \in 1..(n - Len(xs)) |-> ""]
+BodyRowIds(st, T) == SelectSeq(T.rows, LAMBDA r : ~st.row[r].sep)
+Ch(s, i) == SubSeq(s, i, i)
+
+-----------------------------------------------------------------------------
+(* CSV (C05) *)
+
+\* what a strict reader must get back: header (if any) then every non-separator row,
+\* each padded with empty fields to the column count
+CsvRecords(st, T) ==
+  (IF T.hdrp THEN << PadTo(CellTexts(T.hdr), T.ncols) >> ELSE <<>>)
+  \o SeqMap(LAMBDA r : PadTo(CellTexts(st.row[r].cells), T.ncols), BodyRowIds(st, T))
+
+\* strict RFC 4180 reader for the all-fields-quoted dialect: every field is "...",
+\* quotes inside are doubled, fields are separated by one comma, every record is
+\* terminated by LF or CRLF; anything else is invalid.
+\* states: rs record start, fs field start, in inside quotes, q quote seen inside quotes
+RECURSIVE CsvParse(_, _, _, _, _, _)
+CsvParse(s, i, state, fld, rec, acc) ==
+  IF i > Len(s) THEN [ok |-> state = "rs", recs |-> acc]
+  ELSE LET c == Ch(s, i) IN
+    CASE state \in {"rs", "fs"} ->
+           IF c = "\"" THEN CsvParse(s, i + 1, "in", "", rec, acc) ELSE [ok |-> FALSE, recs |-> acc]
+      [] state = "in" ->
+           IF c = "\"" THEN CsvParse(s, i + 1, "q", fld, rec, acc)
+           ELSE CsvParse(s, i + 1, "in", fld \o c, rec, acc)
+      [] state = "q" ->
+           CASE c = "\"" -> CsvParse(s, i + 1, "in", fld \o "\"", rec, acc)
+             [] c = ","  -> CsvParse(s, i + 1, "fs", "", Append(rec, fld), acc)
+             [] c = "\n" -> CsvParse(s, i + 1, "rs", "", <<>>, Append(acc, Append(rec, fld)))
+             [] c = "\r" -> IF i + 1 <= Len(s) /\ Ch(s, i + 1) = "\n"
+                            THEN CsvParse(s, i + 2, "rs", "", <<>>, Append(acc, Append(rec, fld)))
+                            ELSE [ok |-> FALSE, recs |-> acc]
+             [] OTHER -> [ok |-> FALSE, recs |-> acc]
+
+CsvRead(s) == CsvParse(s, 1, "rs", "", <<>>, <<>>)
+
+CsvBad(st, t, res) ==
+  LET T == st.tbl[t] IN
+  IF T.ncols = 0 THEN (IF res.status = "error" THEN {} ELSE {<<"no columns but no error">>})
+  ELSE IF res.status # "ok" THEN {<<"refused">>}
+  ELSE LET p == CsvRead(res.bytes) IN
+       IF ~p.ok THEN {<<"not strict RFC 4180">>}
+       ELSE IF p.recs # CsvRecords(st, T) THEN {<<"records differ", Len(p.recs), Len(CsvRecords(st, T))>>}
+       ELSE {}
+
+\* implementation-shaped emitter (csv.go): the sequence of writes
+RECURSIVE CsvEsc(_)
+CsvEsc(s) == IF s = "" THEN "" ELSE (IF Ch(s, 1) = "\"" THEN "\"\"" ELSE Ch(s, 1)) \o CsvEsc(Drop(s, 1))
+CsvField(s) == "\"" \o CsvEsc(s) \o "\""
+
+CsvRowWrites(txts, n) ==
+  LET mx == Len(txts) IN
+  [i \in 1..Max2(mx - 1, 0) |-> CsvField(txts[i]) \o ","]
+  \o << IF mx > 0 THEN CsvField(txts[mx]) ELSE "\"\"" >>
+  \o [i \in 1..(n - Max2(mx, 1)) |-> ",\"\""]
+  \o << "\n" >>
+
+CsvWrites(st, t) ==
+  LET T == st.tbl[t] IN
+  (IF T.hdrp THEN CsvRowWrites(CellTexts(T.hdr), T.ncols) ELSE <<>>)
+  \o Flatten(SeqMap(LAMBDA r : CsvRowWrites(CellTexts(st.row[r].cells), T.ncols), BodyRowIds(st, T)))
+
+-----------------------------------------------------------------------------
+(* JSON (C07) *)
+
+SkipOf(v) == CASE v = "vtrue" -> "T" [] v = "vfalse" -> "F" [] v = "nil" -> "unset" [] OTHER -> "bad"
+ColSkip(T, n) == SkipOf(MapGet(T.cols[n + 1].props, "k_skip"))
+EffSkip(T, i) == IF ColSkip(T, i) # "unset" THEN ColSkip(T, i) = "T" ELSE ColSkip(T, 0) = "T"
+
+RECURSIVE TextEncOf(_)
+TextEncOf(d) == CASE d.k = "nil" -> "\"\"" [] d.k = "cell" -> TextEncOf(d.inner) [] OTHER -> d.txe[TextSel(d)]
+
+\* the JSON value of a cell: the encoding of its item, or of its non-empty text when
+\* the item encodes as an empty object
+CellEnc(c) == IF c.item.enc = "{}" /\ c.txt # "" THEN TextEncOf(c.snap) ELSE c.item.enc
+
+JsonErrorCase(st, T) ==
+  \/ T.ncols = 0 \/ ~T.hdrp \/ Len(T.hdr) < T.ncols
+  \/ \E i \in 1..T.ncols : T.hdr[i].txt = ""
+  \/ \E i, j \in 1..T.ncols : i # j /\ T.hdr[i].txt = T.hdr[j].txt
+  \/ \E n \in 0..T.ncols : ColSkip(T, n) = "bad"
+  \/ \E r \in Range(BodyRowIds(st, T)) : \E i \in DOMAIN st.row[r].cells :
+        ~(EffSkip(T, i) /\ CellEmpty(st.row[r].cells[i])) /\ st.row[r].cells[i].item.enc = "!ERR"
+
+JsonRowPairs(T, cells) ==
+  {<<T.hdr[i].txt, CellEnc(cells[i])>> : i \in {k \in DOMAIN cells : ~(EffSkip(T, k) /\ CellEmpty(cells[k]))}}
+
+JsonBad(st, t, res) ==
+  LET T == st.tbl[t]
+      ids == BodyRowIds(st, T)
+  IN IF JsonErrorCase(st, T) THEN (IF res.status = "error" THEN {} ELSE {<<"error case accepted">>})
+     ELSE IF res.status # "ok" THEN {<<"refused">>}
+     ELSE LET j == res.json IN
+       IF j.valid # 1 \/ j.shape # 1 THEN {<<"not a valid JSON array of objects">>}
+       ELSE IF Len(j.rows) # Len(ids) THEN {<<"object count", Len(ids), Len(j.rows)>>}
+       ELSE {<<"object", k>> : k \in {x \in DOMAIN j.rows :
+               \/ Range(j.rows[x]) # JsonRowPairs(T, st.row[ids[x]].cells)
+               \/ Len(j.rows[x]) # Cardinality(JsonRowPairs(T, st.row[ids[x]].cells))}}
+
+\* implementation-shaped emitter (json.go), at token level: the comma machine
+JsonTokens(st, t) ==
+  LET T == st.tbl[t]
+      RECURSIVE Go(_, _)
+      Go(k, need) ==
+        IF k > Len(T.rows) THEN << "]" >>
+        ELSE IF st.row[T.rows[k]].sep THEN Go(k + 1, need)
+        ELSE (IF need THEN << "," >> ELSE <<>>) \o << "obj" >> \o Go(k + 1, TRUE)
+  IN << "[" >> \o Go(1, FALSE)
+
+\* [ (obj (, obj)*)? ]
+JsonTokensOK(toks) ==
+  /\ Len(toks) >= 2 /\ toks[1] = "[" /\ toks[Len(toks)] = "]"
+  /\ LET body == SubSeq(toks, 2, Len(toks) - 1) IN
+       /\ \A i \in DOMAIN body : body[i] = (IF i % 2 = 1 THEN "obj" ELSE ",")
+       /\ (body = <<>> \/ Len(body) % 2 = 1)
+
+-----------------------------------------------------------------------------
+(* HTML (C06) *)
+
+GenVal(h, p) == IF h.genvals = <<>> THEN "" ELSE h.genvals[(p % Len(h.genvals)) + 1]
+TrAttrs(h, p) == IF h.gen = 1 THEN << <<"class", GenVal(h, p)>> >> ELSE <<>>
+CellToks(name, txt) == << <<"open", name, <<>> >> >> \o (IF txt = "" THEN <<>> ELSE << <<"text", txt>> >>) \o << <<"close", name>> >>
+
+HtmlExpected(st, t, h) ==
+  LET T == st.tbl[t]
+      pos(r) == st.row[r].pos
+  IN << <<"open", "table", "TABLEATTRS">> >>
+     \o (IF h.caption = "" THEN <<>> ELSE CellToks("caption", h.caption))
+     \o << <<"open", "thead", <<>> >>, <<"open", "tr", TrAttrs(h, 0)>> >>
+     \o Flatten([i \in 1..Len(T.hdr) |-> CellToks("th", T.hdr[i].txt)])
+     \o << <<"close", "tr">>, <<"close", "thead">>, <<"open", "tbody", <<>> >> >>
+     \o Flatten(SeqMap(LAMBDA r : << <<"open", "tr", TrAttrs(h, pos(r))>> >>
+                                   \o Flatten([i \in 1..Len(st.row[r].cells) |-> CellToks("td", st.row[r].cells[i].txt)])
+                                   \o << <<"close", "tr">> >>,
+                       BodyRowIds(st, T)))
+     \o << <<"close", "tbody">>, <<"close", "table">> >>
+
+TableAttrSet(h) == (IF h.class = "" THEN {} ELSE {<<"class", h.class>>}) \cup (IF h.id = "" THEN {} ELSE {<<"id", h.id>>})
+
+HtmlBad(st, t, h, res) ==
+  LET T == st.tbl[t]
+      exp == HtmlExpected(st, t, h)
+      toks == res.toks
+  IN IF res.status # "ok" THEN {<<"refused">>}
+     ELSE IF Len(toks) # Len(exp) THEN {<<"token count", Len(exp), Len(toks)>>}
+     ELSE {<<"token", i>> : i \in {k \in DOMAIN toks :
+             IF k = 1 THEN ~(Len(toks[1]) = 3 /\ toks[1][1] = "open" /\ toks[1][2] = "table"
+                             /\ Range(toks[1][3]) = TableAttrSet(h) /\ Len(toks[1][3]) = Cardinality(TableAttrSet(h)))
+             ELSE toks[k] # exp[k]}}
+          \cup (IF h.gen = 1 /\ res.gencalls # (<<0>> \o SeqMap(LAMBDA r : st.row[r].pos, BodyRowIds(st, T)))
+                THEN {<<"generator calls">>} ELSE {})
+
+-----------------------------------------------------------------------------
+(* Markdown (C08) *)
+
+RECURSIVE TrimL(_)
+TrimL(s) == IF s # "" /\ Ch(s, 1) = " " THEN TrimL(Drop(s, 1)) ELSE s
+RECURSIVE TrimR(_)
+TrimR(s) == IF s # "" /\ Ch(s, Len(s)) = " " THEN TrimR(SubSeq(s, 1, Len(s) - 1)) ELSE s
+TrimSp(s) == TrimR(TrimL(s))
+
+\* a lexed cell: <<raw, decoded, rawflag, ndash, lcolon, rcolon, delimonly>>
+MdCellsBad(T, cells, lc) ==   \* a content line: cells = the row's cells, lc = lexed cells
+  {i \in 1..T.ncols :
+     \/ lc[i][2] # (IF i <= Len(cells) THEN TrimSp(cells[i].txt) ELSE "")
+     \/ lc[i][3] # 0}
+
+MdDelimBad(T, lc) ==
+  {i \in 1..T.ncols :
+     LET al == EffAlign(T, i) IN
+     \/ lc[i][4] < 3 \/ lc[i][7] # 1
+     \/ (lc[i][6] = 1) # (al \in {"right", "centre"})
+     \/ (al = "centre" /\ lc[i][5] # 1)
+     \/ (al = "right" /\ lc[i][5] = 1)}
+
+MdBad(st, t, res) ==
+  LET T == st.tbl[t]
+      ids == BodyRowIds(st, T)
+  IN IF ~T.hdrp \/ T.ncols = 0 THEN (IF res.status = "error" THEN {} ELSE {<<"refusal case accepted">>})
+     ELSE IF res.status # "ok" THEN {<<"refused">>}
+     ELSE LET L == res.md.lines IN
+       IF res.md.rest # "" THEN {<<"no final newline">>}
+       ELSE IF Len(L) # 2 + Len(ids) THEN {<<"line count", 2 + Len(ids), Len(L)>>}
+       ELSE {<<"line", k>> : k \in {x \in DOMAIN L :
+               \/ L[x].npipes # T.ncols + 1 \/ L[x].pre # "" \/ L[x].post # "" \/ Len(L[x].cells) # T.ncols
+               \/ (x = 1 /\ MdCellsBad(T, T.hdr, L[x].cells) # {})
+               \/ (x = 2 /\ MdDelimBad(T, L[x].cells) # {})
+               \/ (x > 2 /\ MdCellsBad(T, st.row[ids[x - 2]].cells, L[x].cells) # {})}}
+
+\* implementation-shaped emitter (markdown.go), write level, for the fault model:
+\* per line: opener, one write per cell (cell + bar), one per padding column, newline
+MdWriteCount(st, t) ==
+  LET T == st.tbl[t]
+      line(n) == 1 + Max2(n, 1) + (T.ncols - Max2(n, 1)) + 1
+  IN line(Len(T.hdr)) + line(T.ncols) + SumSeq(SeqMap(LAMBDA r : line(Len(st.row[r].cells)), BodyRowIds(st, T)))
+
+-----------------------------------------------------------------------------
+(* Model-level refinement checks of the emitters against the declarative parts *)
+
+RECURSIVE ConcatSeq(_)
+ConcatSeq(ws) == IF ws = <<>> THEN "" ELSE Head(ws) \o ConcatSeq(Tail(ws))
+
+EmitOK(st, t, fmt) ==
+  LET T == st.tbl[t] IN
+  CASE fmt = "csv"  -> T.ncols = 0 \/ CsvBad(st, t, [status |-> "ok", bytes |-> ConcatSeq(CsvWrites(st, t))]) = {}
+    [] fmt = "json" -> JsonTokensOK(JsonTokens(st, t))
+                       /\ Cardinality({i \in DOMAIN JsonTokens(st, t) : JsonTokens(st, t)[i] = "obj"}) = Len(BodyRowIds(st, T))
+    [] OTHER -> TRUE
+
+-----------------------------------------------------------------------------
 (* Results of calls *)
 
 RenderBad(s, ns, op, res) ==
@@ -264,6 +478,10 @@ RenderBad(s, ns, op, res) ==
          ELSE IF res.status # "ok" THEN {"out.text"}
          ELSE IF T.ncols = 0 THEN {}
          ELSE IF TextBad(ns, t, RenderDec(s, op), res) # {} THEN {"out.text"} ELSE {})
+     ELSE IF kind = "csv" THEN (IF CsvBad(ns, t, res) # {} THEN {"out.csv"} ELSE {})
+     ELSE IF kind = "json" THEN (IF JsonBad(ns, t, res) # {} THEN {"out.json"} ELSE {})
+     ELSE IF kind = "html" THEN (IF HtmlBad(ns, t, RenderHtml(s, op), res) # {} THEN {"out.html"} ELSE {})
+     ELSE IF kind = "md" THEN (IF MdBad(ns, t, res) # {} THEN {"out.md"} ELSE {})
      ELSE {}
 
 BadResMore(s, ns, op, res) ==
@@ -290,5 +508,10 @@ AgreeMore(s, ns, op, f, v) == TRUE
 
 ExplainMore(s, ns, op, f, res) ==
   IF f = "out.text" /\ res.status = "ok" /\ RenderDec(s, op).empty = 0 /\ ns.tbl[RenderTbl(s, op)].ncols > 0
-  THEN TextBad(ns, RenderTbl(s, op), RenderDec(s, op), res) ELSE {}
+  THEN TextBad(ns, RenderTbl(s, op), RenderDec(s, op), res)
+  ELSE IF f = "out.csv" THEN CsvBad(ns, RenderTbl(s, op), res)
+  ELSE IF f = "out.json" THEN JsonBad(ns, RenderTbl(s, op), res)
+  ELSE IF f = "out.html" THEN HtmlBad(ns, RenderTbl(s, op), RenderHtml(s, op), res)
+  ELSE IF f = "out.md" THEN MdBad(ns, RenderTbl(s, op), res)
+  ELSE {}
 =============================================================================
